@@ -37,6 +37,7 @@ type ttxEvent struct {
 	Op     ttxOpt     `json:"op"`
 	PidOpt string     `json:"pidopt"` // auto | given
 	Post   []tsx.Cue  `json:"post"`
+	Hooks  [][5]int   `json:"hooks"` // per packet reaching the dispatcher: magazine, packet number, receiving (0/1), selected magazine, selected page (hex digits)
 	Nopid  bool       `json:"nopid"` // the reader reported ErrNoValidTeletextPID
 	Res    string     `json:"res"`
 	Msg    string     `json:"msg"`
@@ -44,7 +45,7 @@ type ttxEvent struct {
 
 func ttxRun(n int, c ttxCase, pidGiven bool) ttxEvent {
 	c.St.Norm()
-	ev := ttxEvent{N: n, St: c.St, Op: c.Op, PidOpt: "auto", Post: []tsx.Cue{}}
+	ev := ttxEvent{N: n, St: c.St, Op: c.Op, PidOpt: "auto", Post: []tsx.Cue{}, Hooks: [][5]int{}}
 	data, err := tsx.Build(c.St)
 	if err != nil {
 		ev.Res, ev.Msg = "build-failed", err.Error()
@@ -56,7 +57,17 @@ func ttxRun(n int, c ttxCase, pidGiven bool) ttxEvent {
 		o.PID = []int{tsx.PidA, tsx.PidB, tsx.PidOther}[c.Op.Pid]
 	}
 	var s *astisub.Subtitles
+	astisub.VerifHook = func(site string, key interface{}, kv ...interface{}) {
+		if site == "ttx.packet" && len(kv) == 5 {
+			r := 0
+			if kv[2].(bool) {
+				r = 1
+			}
+			ev.Hooks = append(ev.Hooks, [5]int{kv[0].(int), kv[1].(int), r, kv[3].(int), kv[4].(int)})
+		}
+	}
 	ev.Res, ev.Msg = run.Guard(20*time.Second, func() { s, err = astisub.ReadFromTeletext(bytes.NewReader(data), o) })
+	astisub.VerifHook = nil
 	if ev.Res == "ok" && err != nil {
 		ev.Res, ev.Msg = "err", err.Error()
 		ev.Nopid = errors.Is(err, astisub.ErrNoValidTeletextPID)
